@@ -1,6 +1,7 @@
 package main
 
 import (
+	"go/token"
 	"regexp"
 	"encoding/json"
 	"flag"
@@ -264,6 +265,7 @@ func runCheck(prop, repo, verifDir, tier, only string, workers int, verbose, noE
 	}
 	var runs []*FuncRun
 	var allObs []*Obligation
+	var removedHelpers []string
 	relAlias := [][2]string{{"lists_Element_T_", "RelElement"}, {"list_Element", "RelElement"}, {"lists_List_T_", "RelList"}, {"list_List", "RelList"}, {"lists_Ring_T_", "RelRing"}, {"ring_Ring", "RelRing"}}
 	for _, l := range lemmas {
 		r := v.VerifyLemma(l)
@@ -279,6 +281,18 @@ func runCheck(prop, repo, verifDir, tier, only string, workers int, verbose, noE
 		c := cs.Funcs[k]
 		fn := v.findFunc(k)
 		if fn == nil {
+			// an unexported helper that no longer exists (inlined into its caller, renamed): its contract has no
+			// subject and no client; the callers' own obligations decide. A vanished exported function is reported.
+			base := k
+			if i := strings.Index(base, "#"); i >= 0 {
+				base = base[:i]
+			}
+			name := base[strings.LastIndex(base, ".")+1:]
+			if name != "" && !token.IsExported(name) {
+				fmt.Printf("NOTE %s: contract ignored, the unexported function no longer exists\n", k)
+				removedHelpers = append(removedHelpers, k)
+				continue
+			}
 			runs = append(runs, &FuncRun{Key: k, Err: fmt.Errorf("function not found")})
 			continue
 		}
@@ -306,6 +320,9 @@ func runCheck(prop, repo, verifDir, tier, only string, workers int, verbose, noE
 		}
 	}
 	rep := buildReport(prop, tier, runs, results, cs, time.Since(t0).Seconds(), loadSecs, genSecs, verifDir, verbose)
+	if len(removedHelpers) > 0 {
+		rep.evidence["coverage"].(map[string]interface{})["contracts_without_function"] = removedHelpers
+	}
 	term, termAssume := terminationSummary(v, cs, keys, pairs)
 	rep.evidence["coverage"].(map[string]interface{})["termination"] = term
 	if as, ok := rep.evidence["assumptions"].([]string); ok && len(as) > 0 {
